@@ -233,6 +233,14 @@ where
     chain.rng = SmallRng::seed_from_u64(seed.wrapping_mul(3) + 1);
     out.push(&json!({"e": "init", "x": start, "wx": w[start], "types": format!("{}/{}", S::NAME, std::any::type_name::<F>())}));
     for _ in 0..steps {
+        // now and then the caller repositions the chain through its public field (re-initialisation, tempering ...):
+        // the next step must be decided by the density of the state the chain is at NOW
+        if g.random_range(0..6) == 0 {
+            let pos: Vec<usize> = (0..n).filter(|i| w[*i] > 0).collect();
+            let z = pos[g.random_range(0..pos.len())];
+            chain.current_state = vec![S::from_id(z), S::payload(z % 2)];
+            out.push(&json!({"e": "set", "x": z, "wx": w[z]}));
+        }
         let x = chain.current_state[0].to_id();
         let before: Vec<u64> = chain.current_state.iter().map(|s| s.bits()).collect();
         let u: F = chain.rng.clone().random();
